@@ -57,6 +57,12 @@ def expand_minimal_spaces(
                 assert sd.node_is_minimal(m_id)
                 skip_edges += 1
 
+        # Attractor data computed while the node had no successors
+        # is no longer valid (same as in `_expand_one_node`).
+        node["attractor_seeds"] = None
+        node["attractor_candidates"] = None
+        node["attractor_sets"] = None
+
         node["expanded"] = True
         node["skipped"] = True
 
